@@ -7,7 +7,7 @@ ENGINE = "conc"
 RULE = ("observe_on(new-thread scheduler) at every position of a short pipeline and stacked twice over a hot Subject fed by an emitting "
         "thread (0-4 items, then complete / error / nothing), and subscribe_on at every position and stacked twice over cold sources, with "
         "and without a thread that unsubscribes concurrently, with a subscriber that emits one more item into the source from inside its "
-        "i-th callback (feedback: delivered once, later, never nested), and with bursts of 70-130 items that leave the worker far behind; smallest instances over ALL schedules (DFS), the others under random and PCT "
+        "i-th callback (feedback: delivered once, later, never nested), and with bursts of 70-600 items that leave the worker far behind; smallest instances over ALL schedules (DFS), the others under random and PCT "
         "schedules, part of them with spurious condvar wake-ups; judged against the emitted script: without unsubscribe the subscriber "
         "receives exactly the emitted events in order with the terminal last, with unsubscribe a prefix and no event whose emission began "
         "after unsubscribe returned; all callbacks on ONE thread that is neither the emitting nor the subscribing thread, never two "
@@ -83,7 +83,7 @@ def generate(rng, tier, seed):
     # a burst: the worker falls far behind (PCT gives the emitter priority in about half of the schedules), the backlog is drained
     # in whatever batches the queue hands out
     for shape in (["oo", "oo-map", "oo-oo"] if thorough else ["oo", "oo-map"]):
-        for nb in ([70, 130] if thorough else [70]):
+        for nb in ([70, 130, 300, 600] if thorough else ([70, 300] if shape == "oo" else [70])):
             base = seed * 1000 + rng.randrange(1000)
             cases.append(hot_case(shape, list(range(1, nb + 1)), rng.choice(["c", "e"]), False, ["pct", 3, base, 12 if thorough else 6]))
             cases.append(hot_case(shape, list(range(1, nb + 1)), "c", False, ["random", base, 6 if thorough else 3]))
